@@ -559,18 +559,23 @@ func bitsOf(rs []rune, f func(rune) bool) []int64 {
 func legC16Class(c *Ctx) {
 	c16Setup()
 	c.Rule("random bracket expressions (1-12 members: characters, ranges, complement-shaped ranges, \\d\\s\\w\\D\\S\\W, \\p{..}/\\P{..} over 40 category/script/property names, POSIX names under RE2, negation, nested subtraction to depth 3) x modes {none, IgnoreCase, ECMAScript, RE2, IgnoreCase+ECMAScript, IgnoreCase+RE2} x ASCII bitmap on/off x runes {U+0000-U+024F, every range endpoint +-1 of the expression and of the parsed class, edge runes, sampled BMP/astral/surrogates, U+10FFFF}; under IgnoreCase ranges have ASCII endpoints, single members are ASCII or plain upper/lower pairs of ASCII/Latin-1/Greek/Cyrillic; non-trivial = a class with at least two members, negation or subtraction (distinct by pattern text and mode)")
-	if c.Leg == "c16-class-0" {
-		c16CheckFoldD(c)
-	}
 	nClasses := c.N(50, 1250) // per leg and mode family; four legs run in parallel
 	nSample := c.N(2000, 20000)
 	gates := map[string]bool{}
+	if c.Leg == "c16-class-0" {
+		c16CheckFoldD(c)
+		c16CheckSpaceFacts(c)
+		for _, w := range c16Corpus() {
+			c16OneClass(c, w.m, nSample, gates, w.syn)
+		}
+		c.Flush()
+	}
 	for i := 0; i < nClasses; i++ {
 		for mi, m := range c16Modes {
 			if mi >= 4 && i%4 != 0 {
 				continue // combined modes at a quarter of the density
 			}
-			c16OneClass(c, m, nSample, gates)
+			c16OneClass(c, m, nSample, gates, nil)
 		}
 		c.Flush()
 	}
@@ -579,9 +584,11 @@ func legC16Class(c *Ctx) {
 	}
 }
 
-func c16OneClass(c *Ctx, m c16Mode, nSample int, gates map[string]bool) {
+func c16OneClass(c *Ctx, m c16Mode, nSample int, gates map[string]bool, syn *c16Syn) {
 	rg := c.Rng
-	syn := c16GenSyn(rg, m, 0)
+	if syn == nil {
+		syn = c16GenSyn(rg, m, 0)
+	}
 	pat := syn.print(rg, m)
 	facts := &c16Facts{cats: map[string]bool{}}
 	syn.facts(m, facts, 0)
@@ -761,6 +768,43 @@ func c16OneClass(c *Ctx, m c16Mode, nSample int, gates map[string]bool) {
 	in3 := append(append(append(append([]int64{}, oracle...), m.bits()), synEnc...), domEnc...)
 	c.Add(&Case{Desc: desc + " [denote]", Key: key, Class: cl, Guard: guard,
 		ModelLeg: 1603, ModelIn: in3, ImplOut: inPlain})
+
+	// ---- runes that are not code points (only reachable through []rune inputs): the model must agree
+	// with the implementation; set algebra is claimed for valid runes only (known finding rune_out_of_range)
+	bad := []rune{-1, 0x110000, 0x7fffffff}
+	catBad := append([]rune{}, bad...)
+	for r := rune(0); r < 128; r++ {
+		catBad = append(catBad, r) // the model re-derives the bitmap
+	}
+	oracleBad := c16EncOracle(cats, catBad, caseRunes)
+	badBM := bitsOf(bad, withBM.CharIn)
+	badPlain := bitsOf(bad, cs.CharIn)
+	directBad := ""
+	if eng, err := c16Compile(pat, m, true); err == nil {
+		func() {
+			defer func() {
+				if r := recover(); r != nil {
+					directBad = fmt.Sprintf("panic in MatchRunes on an invalid rune: %v", r)
+				}
+			}()
+			for i, r := range bad {
+				for k := 0; k < 3; k++ {
+					ok, err := eng.re[k].MatchRunes([]rune{r})
+					if err != nil || b2i(ok) != badPlain[i] {
+						directBad = fmt.Sprintf("MatchRunes(%s, rune %d) = %v, %v but CharIn = %d", eng.desc[k], r, ok, err, badPlain[i])
+						return
+					}
+				}
+			}
+		}()
+	}
+	c.Add(&Case{Desc: desc + " [char_in on the exported class, invalid runes -1, 0x110000, 0x7fffffff]", Key: key, Class: cl + "/invalid-runes", Direct: directBad,
+		ModelLeg: 1601, ModelIn: append(append(append([]int64{}, oracleBad...), encBM...), encRunes(bad)...),
+		ImplOut: append(append(append([]int64{}, badBM...), badPlain...), 1)})
+	if !m.ci {
+		c.Add(&Case{Desc: desc + " [denote, invalid runes -1, 0x110000, 0x7fffffff]", Key: key, Class: cl + "/invalid-runes", Guard: "rune_out_of_range",
+			ModelLeg: 1603, ModelIn: append(append(append(append([]int64{}, oracleBad...), m.bits()), synEnc...), encRunes(bad)...), ImplOut: badPlain})
+	}
 }
 
 // ---------------------------------------------------------------- coq/Model/FoldD.v (finite case domain)
@@ -820,4 +864,451 @@ func c16CheckFoldD(c *Ctx) {
 		cs.Direct = "coq/Model/FoldD.v is stale (the closed IgnoreCase theorems are about other tables than the running unicode package)"
 	}
 	c.Add(cs)
+}
+
+// ---------------------------------------------------------------- deterministic corpus: past defects (now fixed in /repo)
+
+type c16Witness struct {
+	syn *c16Syn
+	m   c16Mode
+}
+
+func c16Corpus() []c16Witness {
+	ch := func(r rune) c16Item { return c16Item{kind: c16Range, a: r, b: r} }
+	rg := func(a, b rune) c16Item { return c16Item{kind: c16Range, a: a, b: b} }
+	prop := func(neg bool, n string) c16Item { return c16Item{kind: c16Prop, neg: neg, name: n} }
+	none, ci, ecma, re2 := c16Modes[0], c16Modes[1], c16Modes[2], c16Modes[3]
+	return []c16Witness{
+		// 027bb80: a negated category hid the categories after it: [\P{Lu}\p{L}] on "A"
+		{&c16Syn{items: []c16Item{prop(true, "Lu"), prop(false, "L")}}, none},
+		{&c16Syn{items: []c16Item{prop(true, "Nd"), {kind: c16Word}, prop(true, "L")}}, none},
+		// d71b246: (?i)[a-z-[b]] matched "B"
+		{&c16Syn{items: []c16Item{rg('a', 'z')}, sub: &c16Syn{items: []c16Item{ch('b')}}}, ci},
+		{&c16Syn{items: []c16Item{rg('A', 'Z')}, sub: &c16Syn{items: []c16Item{rg('a', 'f')}, sub: &c16Syn{items: []c16Item{ch('E')}}}}, ci},
+		// 376a621: members added after the class was normalised to a negated form were lost
+		{&c16Syn{items: []c16Item{{kind: c16Digit, neg: true}, {kind: c16Digit}}}, ecma},
+		{&c16Syn{items: []c16Item{{kind: c16Digit, neg: true}, ch('5')}}, ecma},
+		{&c16Syn{items: []c16Item{{kind: c16Digit, neg: true}, ch('_')}}, re2},
+		{&c16Syn{items: []c16Item{{kind: c16Posix, neg: true, k: 7}, ch('a')}}, re2},
+		{&c16Syn{items: []c16Item{rg(1, 0x10ffff), ch('a')}}, none},
+		{&c16Syn{items: []c16Item{rg(0, 0x10fffe), ch('a')}}, none},
+		{&c16Syn{items: []c16Item{rg(0, 0x60), rg('b', 0x10ffff), ch('c')}}, none},
+		{&c16Syn{items: []c16Item{{kind: c16Digit}, rg(0, 0x60), rg('b', 0x10ffff), ch('5')}}, none},
+		{&c16Syn{items: []c16Item{rg(0, 0x60), rg('b', 0x10ffff)}, sub: &c16Syn{items: []c16Item{ch('b')}}}, none},
+		// d434c54: RE2 [[:digit:]] and [[:space:]] are the ASCII classes
+		{&c16Syn{items: []c16Item{{kind: c16Posix, k: 5}}}, re2},
+		{&c16Syn{items: []c16Item{{kind: c16Posix, k: 10}}}, re2},
+		{&c16Syn{items: []c16Item{{kind: c16Posix, neg: true, k: 10}, {kind: c16Posix, neg: true, k: 5}}}, re2},
+		// the shapes of canonicalize's normal forms, complete classes
+		{&c16Syn{items: []c16Item{rg(0, 0x60), rg('b', 0x10ffff)}}, none},
+		{&c16Syn{items: []c16Item{rg(0, 0x10ffff)}}, none},
+		{&c16Syn{neg: true, items: []c16Item{rg(0, 0x10ffff)}}, none},
+		{&c16Syn{items: []c16Item{{kind: c16Space}, {kind: c16Space, neg: true}}}, none},
+		{&c16Syn{items: []c16Item{{kind: c16Word}, rg(0, '/'), rg('1', 0x10ffff)}}, none},
+		{&c16Syn{items: []c16Item{{kind: c16Space}, rg(0, '/'), rg('1', 0x10ffff)}}, none},
+		// IgnoreCase: k, s (three-member orbits), Kelvin sign, long s
+		{&c16Syn{items: []c16Item{ch('k'), ch('S')}}, ci},
+		{&c16Syn{neg: true, items: []c16Item{rg('j', 'l')}}, ci},
+		{&c16Syn{items: []c16Item{prop(false, "Lu")}}, ci},
+		{&c16Syn{items: []c16Item{prop(false, "Ll"), ch('1')}, sub: &c16Syn{items: []c16Item{rg('A', 'F')}}}, ci},
+	}
+}
+
+// the Unicode facts theorem C16_may_overlap_sound assumes (space_facts), on every code point
+func c16CheckSpaceFacts(c *Ctx) {
+	inTab := func(t [][2]rune, r rune) bool {
+		for _, p := range t {
+			if r >= p[0] && r <= p[1] {
+				return true
+			}
+		}
+		return false
+	}
+	ecmaWord := [][2]rune{{'0', '9'}, {'A', 'Z'}, {'_', '_'}, {'a', 'z'}}
+	cs := &Case{Desc: "oracle fact space_facts: no white space rune and no ECMAScript \\s rune is a decimal digit or a word character (all code points)", Class: "oracle-fact"}
+	for r := rune(-1); r <= 0x110000; r++ {
+		if unicode.IsSpace(r) || inTab(c16EcmaSpace, r) {
+			if unicode.Is(unicode.Nd, r) || syntax.IsWordChar(r) || inTab(ecmaWord, r) {
+				cs.Direct = fmt.Sprintf("oracle hypothesis space_facts violated at %U", r)
+				break
+			}
+		}
+	}
+	c.Add(cs)
+}
+
+// ---------------------------------------------------------------- leg c16-ops: the CharSet methods on raw classes
+
+func init() { registerLeg("c16-ops", "C16", legC16Ops) }
+
+type c16Raw struct {
+	ranges   []syntax.SingleRange
+	cats     []syntax.Category
+	sub      *c16Raw
+	neg, any bool
+}
+
+func (r *c16Raw) build() *syntax.CharSet {
+	var sub *syntax.CharSet
+	if r.sub != nil {
+		sub = r.sub.build()
+	}
+	return syntax.VerifNewCharSet(r.ranges, r.cats, sub, r.neg, r.any)
+}
+
+var c16RawCats = []string{syntax.SpaceCategoryText, syntax.WordCategoryText, "Nd", "L", "Lu", "Ll", "Lt", "P", "Greek", "Latin", "Hex_Digit"}
+
+// small: ranges stay inside U+0000-U+024F / the pair letters with short spans (case operations, enumeration)
+func c16GenRaw(rg *Rng, depth int, small bool) *c16Raw {
+	r := &c16Raw{neg: rg.Chance(25)}
+	if rg.Chance(4) {
+		r.any = true
+		r.ranges = []syntax.SingleRange{{First: 0, Last: 0x10ffff}}
+		return r
+	}
+	n := rg.Intn(7)
+	if rg.Chance(20) {
+		n += 4
+	}
+	var near []rune
+	pick := func() rune {
+		if small {
+			if rg.Chance(70) {
+				return rune(rg.Intn(0x250))
+			}
+			return Pick(rg, c16D)
+		}
+		return c16RandRune(rg, c16Modes[0], near)
+	}
+	for i := 0; i < n; i++ {
+		a := pick()
+		b := a
+		switch rg.Intn(4) {
+		case 0:
+		case 1:
+			b = a + rune(rg.Intn(4))
+		case 2:
+			b = a + rune(rg.Intn(40))
+		default:
+			if small {
+				b = a + rune(rg.Intn(12))
+			} else {
+				b = pick()
+			}
+		}
+		if a > b {
+			a, b = b, a
+		}
+		if b > 0x10ffff {
+			b = 0x10ffff
+		}
+		if !small && rg.Chance(12) { // complement shapes
+			g := pick()
+			switch rg.Intn(4) {
+			case 0:
+				a, b = 0, 0x10ffff
+			case 1:
+				a, b = 0, 0x10fffe
+			case 2:
+				a, b = 1, 0x10ffff
+			default:
+				if g > 0 {
+					r.ranges = append(r.ranges, syntax.SingleRange{First: 0, Last: g - 1})
+				}
+				a, b = g+1, 0x10ffff
+				if a > b {
+					a = b
+				}
+			}
+		}
+		near = append(near, a, b)
+		r.ranges = append(r.ranges, syntax.SingleRange{First: a, Last: b})
+	}
+	for k := rg.Intn(3); k > 0 && rg.Chance(60); k-- {
+		name := Pick(rg, c16RawCats)
+		dup := false
+		for _, c := range r.cats {
+			if c.Cat == name {
+				dup = true
+			}
+		}
+		if !dup { // addCategories never leaves the same name twice
+			r.cats = append(r.cats, syntax.Category{Cat: name, Negate: rg.Chance(35)})
+		}
+	}
+	if depth < 2 && rg.Chance(20) {
+		r.sub = c16GenRaw(rg, depth+1, small)
+	}
+	return r
+}
+
+// canonical variant (what every finished class looks like): built through the implementation
+func c16GenCanon(rg *Rng, small bool) *syntax.CharSet {
+	cs := c16GenRaw(rg, 0, small).build()
+	var fix func(x *syntax.CharSet)
+	fix = func(x *syntax.CharSet) {
+		x.VerifCanonicalize()
+		if _, _, sub, _, _, _, _ := syntax.VerifCharSetFields(x); sub != nil {
+			fix(sub)
+		}
+	}
+	fix(cs)
+	return cs
+}
+
+var c16CaseTabOps []rune
+var c16OpsOnce sync.Once
+
+func c16OpsSetup() {
+	c16Setup()
+	c16OpsOnce.Do(func() {
+		seen := map[rune]bool{}
+		var work []rune
+		add := func(r rune) {
+			if !seen[r] {
+				seen[r] = true
+				work = append(work, r)
+			}
+		}
+		for r := rune(0); r <= 0x52f; r++ {
+			add(r)
+		}
+		for _, r := range c16D {
+			add(r)
+		}
+		for i := 0; i < len(work); i++ {
+			add(unicode.SimpleFold(work[i]))
+			add(unicode.ToLower(work[i]))
+		}
+		sort.Slice(work, func(i, j int) bool { return work[i] < work[j] })
+		c16CaseTabOps = work
+	})
+}
+
+func c16ClsRunes(cs *syntax.CharSet, all bool, out []rune) []rune {
+	ranges, _, sub, _, _, _, _ := syntax.VerifCharSetFields(cs)
+	for _, r := range ranges {
+		for d := rune(-1); d <= 1; d++ {
+			for _, e := range []rune{r.First + d, r.Last + d} {
+				if e >= 0 && e <= 0x10ffff {
+					out = append(out, e)
+				}
+			}
+		}
+		if all && r.Last-r.First <= 4096 {
+			for x := r.First; x <= r.Last; x++ {
+				out = append(out, x)
+			}
+		}
+	}
+	if sub != nil {
+		out = c16ClsRunes(sub, all, out)
+	}
+	return out
+}
+
+func encRanges(rs []syntax.SingleRange) []int64 {
+	out := []int64{int64(len(rs))}
+	for _, r := range rs {
+		out = append(out, int64(r.First), int64(r.Last))
+	}
+	return out
+}
+
+func legC16Ops(c *Ctx) {
+	c16OpsSetup()
+	c.Rule("one CharSet method per case on RAW classes (0-10 unsorted, overlapping, abutting, complement-shaped ranges in [0,0x10FFFF], up to two categories, negation, nested subtraction, rarely the anything flag): canonicalize, addRange, addRanges, addNegativeRanges, addSet, addCategories (with X/not-X clashes), addLowercase and addCaseEquivalences (ranges inside U+0000-U+024F and the pair letters), MayOverlap (canonical classes incl. the \\s \\d \\w constants, equal and complementary pairs; checked against brute force), IsSingleton/IsSingletonInverse/reduceSet, prepareASCIIBitmap; the model must return the identical CharSet; non-trivial = the method changed the class or answered true (distinct by operation and operands)")
+	n := c.N(1500, 60000)
+	ops := map[int]int{}
+	gates := map[string]bool{}
+	ascii := make([]rune, 128)
+	for i := range ascii {
+		ascii[i] = rune(i)
+	}
+	for i := 0; i < n; i++ {
+		rg := c.Rng
+		op := 1 + rg.Intn(11)
+		small := op == 7 || op == 8 || op == 9
+		var a *syntax.CharSet
+		if op == 9 || op == 10 || op == 11 {
+			a = c16GenCanon(rg, small)
+		} else {
+			a = c16GenRaw(rg, 0, small).build()
+		}
+		if op == 10 && rg.Chance(50) {
+			x := c16RandRune(rg, c16Modes[0], nil)
+			a = syntax.VerifNewCharSet([]syntax.SingleRange{{First: x, Last: x + rune(rg.Intn(10)/9)}}, nil, nil, rg.Bool(), false)
+		}
+		used := map[string]bool{}
+		encA := encCls(a, used)
+		before := a.String() + fmt.Sprint(encA)
+		runes := c16ClsRunes(a, false, nil)
+		var args []int64
+		var implOut []int64
+		desc := fmt.Sprintf("op %d on %s", op, a.String())
+		var caseRunes []rune
+		nontrivial := false
+		direct := ""
+		func() {
+			defer func() {
+				if r := recover(); r != nil {
+					direct = fmt.Sprintf("panic: %v", r)
+				}
+			}()
+			switch op {
+			case 1:
+				desc = "canonicalize " + a.String()
+				a.VerifCanonicalize()
+			case 2:
+				lo := c16RandRune(rg, c16Modes[0], runes)
+				hi := lo + rune(rg.Intn(3))*rune(rg.Intn(50))
+				if hi > 0x10ffff {
+					hi = 0x10ffff
+				}
+				desc = fmt.Sprintf("addRange(%U,%U) on %s", lo, hi, a.String())
+				args = []int64{int64(lo), int64(hi)}
+				runes = append(runes, lo-1, lo, hi, hi+1)
+				a.VerifAddRange(lo, hi)
+			case 3, 4:
+				k := rg.Intn(4)
+				var rs []syntax.SingleRange
+				cur := rune(rg.Intn(200))
+				for j := 0; j < k; j++ {
+					w := rune(rg.Intn(30))
+					rs = append(rs, syntax.SingleRange{First: cur, Last: cur + w})
+					cur += w + 1 + rune(rg.Intn(3))*rune(rg.Intn(100))
+				}
+				if op == 3 && rg.Chance(30) && len(rs) > 1 {
+					rs[0], rs[len(rs)-1] = rs[len(rs)-1], rs[0] // addRanges takes any order
+				}
+				args = encRanges(rs)
+				for _, r := range rs {
+					runes = append(runes, r.First-1, r.First, r.Last, r.Last+1)
+				}
+				if op == 3 {
+					desc = fmt.Sprintf("addRanges(%v) on %s", rs, a.String())
+					a.VerifAddRanges(rs)
+				} else {
+					desc = fmt.Sprintf("addNegativeRanges(%v) on %s", rs, a.String())
+					a.VerifAddNegativeRanges(rs)
+				}
+			case 5:
+				b := c16GenRaw(rg, 0, false)
+				b.sub, b.neg = nil, false // IsMergeable
+				bs := b.build()
+				if rg.Chance(50) {
+					bs.VerifCanonicalize()
+				}
+				desc = fmt.Sprintf("addSet(%s) on %s", bs.String(), a.String())
+				args = encCls(bs, used)
+				runes = c16ClsRunes(bs, false, runes)
+				a.VerifAddSet(*bs)
+			case 6:
+				var l []syntax.Category
+				for k := 1 + rg.Intn(3); k > 0; k-- {
+					l = append(l, syntax.Category{Cat: Pick(rg, c16RawCats), Negate: rg.Chance(40)})
+				}
+				desc = fmt.Sprintf("addCategories(%v) on %s", l, a.String())
+				args = []int64{int64(len(l))}
+				for _, k := range l {
+					used[k.Cat] = true
+					args = append(args, b2i(k.Negate), c16CatID(k.Cat))
+				}
+				a.VerifAddCategories(l...)
+			case 7:
+				desc = "addLowercase " + a.String()
+				caseRunes = c16CaseTabOps
+				a.VerifAddLowercase()
+			case 8:
+				desc = "addCaseEquivalences " + a.String()
+				caseRunes = c16CaseTabOps
+				a.VerifAddCaseEquivalences()
+			case 9:
+				var b *syntax.CharSet
+				switch rg.Intn(8) {
+				case 0:
+					cp := a.Copy()
+					b = &cp
+				case 1: // complement: same set, other negate flag
+					ranges, cats, sub, negate, anything, _, _ := syntax.VerifCharSetFields(a)
+					b = syntax.VerifNewCharSet(ranges, cats, sub, !negate, anything)
+				case 2:
+					b = Pick(rg, []func() *syntax.CharSet{syntax.DigitClass, syntax.WordClass, syntax.ECMADigitClass, syntax.ECMAWordClass, syntax.SpaceClass})()
+					if rg.Chance(70) {
+						a = Pick(rg, []func() *syntax.CharSet{syntax.SpaceClass, syntax.ECMASpaceClass})()
+						encA = encCls(a, used)
+					}
+					if rg.Chance(50) {
+						a, b = b, a
+						encA = encCls(a, used)
+					}
+				default:
+					b = c16GenCanon(rg, true)
+				}
+				if rg.Chance(30) {
+					a.VerifPrepareASCIIBitmap()
+					encA = encCls(a, used)
+				}
+				desc = fmt.Sprintf("MayOverlap(%s, %s)", a.String(), b.String())
+				args = encCls(b, used)
+				runes = c16ClsRunes(a, true, runes)
+				runes = c16ClsRunes(b, true, runes)
+				got := a.MayOverlap(b)
+				implOut = []int64{b2i(got)}
+				nontrivial = true
+				if !got {
+					gates["may-overlap-false"] = true
+					// brute force on every rune either class mentions, and a sample
+					chk := append(append([]rune{}, runes...), c16EdgeRunes...)
+					for r := rune(0); r < 0x300; r++ {
+						chk = append(chk, r)
+					}
+					for _, r := range chk {
+						if r >= 0 && a.CharIn(r) && b.CharIn(r) {
+							direct = fmt.Sprintf("MayOverlap = false but both classes contain %U", r)
+							break
+						}
+					}
+				}
+			case 10:
+				desc = "IsSingleton/IsSingletonInverse/reduceSet " + a.String()
+				kind, ch := int64(0), int64(0)
+				if a.IsSingleton() {
+					kind, ch = 1, int64(a.SingletonChar())
+					gates["singleton"] = true
+				} else if a.IsSingletonInverse() {
+					kind, ch = 2, int64(a.SingletonChar())
+					gates["singleton-inverse"] = true
+				}
+				implOut = []int64{b2i(a.IsSingleton()), b2i(a.IsSingletonInverse()), 0, kind, ch}
+				nontrivial = kind != 0
+			case 11:
+				desc = "prepareASCIIBitmap " + a.String()
+				runes = append(runes, ascii...)
+				a.VerifPrepareASCIIBitmap()
+			}
+		}()
+		if op == 8 && direct == "" {
+			implOut = append([]int64{0}, encCls(a, used)...)
+		} else if implOut == nil {
+			implOut = encCls(a, used)
+		}
+		if op != 9 && op != 10 {
+			nontrivial = a.String()+fmt.Sprint(encCls(a, map[string]bool{})) != before
+			runes = c16ClsRunes(a, false, runes)
+		}
+		ops[op]++
+		in := c16EncOracle(sortedKeys(used), runes, caseRunes)
+		in = append(in, int64(op))
+		in = append(in, encA...)
+		in = append(in, args...)
+		c.Add(&Case{Desc: desc, Class: fmt.Sprintf("op%02d", op), Nontrivial: nontrivial, Direct: direct,
+			ModelLeg: 1604, ModelIn: in, ImplOut: implOut})
+		if i%200 == 199 {
+			c.Flush()
+		}
+	}
+	for _, g := range []string{"may-overlap-false", "singleton", "singleton-inverse"} {
+		c.Gate(g, gates[g])
+	}
 }
